@@ -41,8 +41,10 @@ constructed with its own options given as FRESH containers (oracle P2m; implemen
 F52 probe (implementation only): operating one converter on `G[int]` (generic attrs class) must not change what another
 instance does with `G[int]`.
 """
+import collections
 import copy as _copy
 import gc
+import typing
 import itertools
 import json
 import os
@@ -88,6 +90,14 @@ class ExtS:
 
 
 @attrs.define
+class ExtQ:
+    q: collections.deque[int]
+    l: list[int]  # noqa: E741
+    t: tuple[int, ...]
+    m: dict[str, int]
+
+
+@attrs.define
 class ExtT:
     f: float
 
@@ -107,6 +117,8 @@ def _ext_canon(v):
         return ("list", [_ext_canon(x) for x in v])
     if isinstance(v, (set, frozenset)):
         return (type(v).__name__, sorted(repr(x) for x in v))
+    if isinstance(v, collections.deque):
+        return ("deque", [_ext_canon(x) for x in v])
     if isinstance(v, float):
         return ("val", repr(v))
     if isinstance(v, dict):  # the class of the mapping is an observable (dict_factory)
@@ -141,6 +153,30 @@ EXT = [
     ("ExtT<-{F}", ST, ExtT, {"F": 1.5}),
     ("An[ExtT]<-{F}", ST, Annotated[ExtT, "m"], {"F": 1.5}),
     ("ExtHT<-{F}", ST, ExtHT, {"t": {"F": 1.5}, "u": {"F": 2.5}}),
+    # ... the whole lattice of collection types an override can reach (Sequence > MutableSequence > list, deque; Sequence >
+    # tuple; Mapping > MutableMapping > dict > Counter), bare, parametrised, typing aliases, as fields
+    ("deque[int]", UN, collections.deque[int], collections.deque([1, 2])),
+    ("Deque[int]", UN, typing.Deque[int], collections.deque([1, 2])),
+    ("deque(bare)", UN, collections.deque, collections.deque([1, 2])),
+    ("An[deque[int]]", UN, Annotated[collections.deque[int], "m"], collections.deque([1, 2])),
+    ("list[int]", UN, list[int], [1, 2]),
+    ("tuple[int,...]", UN, tuple[int, ...], (1, 2)),
+    ("tuple[int,str]", UN, tuple[int, str], (1, "s")),
+    ("Sequence[int]", UN, typing.Sequence[int], [1, 2]),
+    ("MutableSequence[int]", UN, typing.MutableSequence[int], [1, 2]),
+    ("dict[str,int]", UN, dict[str, int], {"k": 1}),
+    ("Mapping[str,int]", UN, typing.Mapping[str, int], {"k": 1}),
+    ("MutableMapping[str,int]", UN, typing.MutableMapping[str, int], {"k": 1}),
+    ("Counter[str]", UN, typing.Counter[str], collections.Counter("ab")),
+    ("ExtQ(deque/list/tuple/dict-fields)", UN, ExtQ, ExtQ(collections.deque([1]), [2], (3,), {"k": 4})),
+    # option-sensitive classes INSIDE collections: Converter generates the collection hook once, with the element handler
+    # (and through it the options) baked in, and parks it in the direct table
+    ("list[ExtDf]=default", UN, list[ExtDf], [ExtDf()]),
+    ("tuple[ExtDf,int]=default", UN, tuple[ExtDf, int], (ExtDf(), 1)),
+    ("dict[str,A]+extra-key", ST, dict[str, dc.DspA], {"k": {"x": 5, "zz": 1}}),
+    ("list[A](invalid)", ST, list[dc.DspA], [{"x": "zz"}]),
+    ("dict[str,ExtT](float-field)", UN, dict[str, ExtT], {"k": ExtT(1.5)}),
+    ("dict[str,ExtT]<-{F}", ST, dict[str, ExtT], {"k": {"F": 1.5}}),
     # dict_factory (and the strategy): the class of what an instance is unstructured to
     ("A(class-of-result)", UN, dc.DspA, dc.DspA(5)),
     ("W(class-of-nested-results)", UN, dc.DspW, dc.DspW(dc.DspA(5), 5, [dc.DspB(5, 6)])),
@@ -148,11 +184,13 @@ EXT = [
 _EXT_ANNOTATED = (ExtH, ExtS, ExtHT)
 
 
-def ext_battery(impl, idx):
+def ext_battery(impl, idx, only=None):
     """-> {("ext", name): canonical result}; exceptions are observed by class (detailed validation changes it)"""
     conv, cc = impl.convs[idx], impl.cfgs[idx]
     out = {}
     for name, d, t, x in EXT:
+        if only is not None and name not in only:
+            continue
         if cc.tuple_strat and d == ST:
             continue  # the structure payloads above are mappings
         if not cc.gen() and ("An[" in name or t in _EXT_ANNOTATED):
@@ -221,7 +259,11 @@ def kname(k):
     return f"{k[0]} {U.types[k[1]].name}" if k[0] != "ext" else f"option-sensitive probe {k[1]}"
 
 
-COLL_CHOICES = [{}, {"set": "list"}, {"set": "sorted"}, {"frozenset": "list"}, {"AbstractSet": "list"}]
+COLL_CHOICES = [{}, {"set": "list"}, {"set": "sorted"}, {"frozenset": "list"}, {"AbstractSet": "list"},
+                # the abstract keys: the constructor derives entries for the more specific types from them
+                {"Sequence": "tuple"}, {"MutableSequence": "tuple"}, {"Sequence": "tuple", "list": "list"}, {"MutableSet": "sorted"},
+                {"Mapping": "OrderedDict"}, {"MutableMapping": "OrderedDict"}, {"dict": "OrderedDict"}, {"deque": "tuple"},
+                {"Sequence": "list", "MutableSequence": "tuple"}, {"AbstractSet": "sorted", "Sequence": "tuple", "Mapping": "OrderedDict"}]
 TYO_CHOICES = [{}, {"float": "F"}, {"float": "G"}]
 DF_CHOICES = ["dict", "OrderedDict"]
 BOOL_OPTS = {"Converter": ("detailed_validation", "prefer_attrib_converters", "forbid_extra_keys", "omit_if_default"),
@@ -251,22 +293,7 @@ def gen_cfg(rng, allow_json=True):
                    detailed=rng.random() < 0.6, extra=extra)
 
 
-def apply_override(cc, kwargs):
-    """configuration of `copy(**kwargs)` of a converter configured as `cc`: every given option replaces the source's,
-    every other option is carried"""
-    new = ConvCfg.from_json(cc.to_json())
-    for k, v in kwargs.items():
-        if k == "detailed_validation":
-            new.detailed = v
-        elif k == "unstruct_strat":
-            new.tuple_strat = v == "astuple"
-        else:
-            new.extra[k] = v
-    return new
-
-
-def copy_op(src, cc, kwargs, how="copy"):
-    return {"op": "copy", "src": src, "how": how, "kwargs": kwargs, "cfg": apply_override(cc, kwargs).to_json()}
+apply_override, copy_op = dc.apply_override, dc.copy_op
 
 
 def gen_copy(rng, src, cc):
@@ -303,6 +330,8 @@ def systematic_option_cases():
         grid.append(("dict_factory", DF_CHOICES, DF_CHOICES))
         if klass == "Converter":
             grid.append(("unstruct_collection_overrides", COLL_CHOICES[:2], COLL_CHOICES[:3]))
+            grid.append(("unstruct_collection_overrides", [{"Sequence": "tuple"}, {"Mapping": "OrderedDict"}],
+                         [{}, {"MutableSequence": "list"}, {"Sequence": "tuple"}]))
             grid.append(("type_overrides", TYO_CHOICES[:2], TYO_CHOICES))
         for opt, src_vals, new_vals in grid:
             for sv in src_vals:
@@ -356,14 +385,20 @@ def reference_converter(preds, cc, regs):
     return fresh_replay(preds, cc, regs).convs[0]
 
 
-def battery(impl, idx, names=None):
+# the option-sensitive probes run in cases that override no option (the systematic registration-kind x way-of-copying sweep):
+# one probe per option
+EXT_LIGHT = ("A+extra-key", "ExtDf=default", "ExtK(field-converter)", "A(invalid)", "An[set[int]]", "ExtT(float-field)",
+             "A(class-of-result)", "ExtQ(deque/list/tuple/dict-fields)", "list[ExtDf]=default")
+
+
+def battery(impl, idx, names=None, ext_only=None):
     cc = impl.cfgs[idx]
     out = {}
     for d in DIRS:
         for p in dc.probe_ops(idx, d, cc, names):
             out[(d, p["ty"])] = impl.do(p)
     if names is None:
-        out.update(ext_battery(impl, idx))
+        out.update(ext_battery(impl, idx, ext_only))
     return out
 
 
@@ -387,6 +422,7 @@ def run_case(chk, drv, case, global_ref, stats, corr_fail, loc_fail=None):
     preds = dc.preds_from_json(case["preds"])
     cc0 = ConvCfg.from_json(case["cfg"])
     pre, copies, target, post = case["pre"], case["copies"], case["target"], case["post"]
+    ext_only = EXT_LIGHT if case.get("ext") == "light" else None
     impl = Impl(preds)
     impl.make(cc0)
     full = []          # the store history as executed (for the model)
@@ -409,7 +445,7 @@ def run_case(chk, drv, case, global_ref, stats, corr_fail, loc_fail=None):
     # ---- copies, checked at copy time
     for cop in copies:
         src = cop["src"]
-        src_bat = battery(impl, src)
+        src_bat = battery(impl, src, ext_only=ext_only)
         full.extend(dc.probe_ops(src, d, impl.cfgs[src]) for d in ())  # (battery ops are appended below)
         for d in DIRS:
             full.extend(dc.probe_ops(src, d, impl.cfgs[src]))
@@ -417,7 +453,7 @@ def run_case(chk, drv, case, global_ref, stats, corr_fail, loc_fail=None):
         new = len(impl.convs) - 1
         ncc = impl.cfgs[new]
         regs_of[new] = list(regs_of[src])
-        new_bat = battery(impl, new)
+        new_bat = battery(impl, new, ext_only=ext_only)
         for d in DIRS:
             full.extend(dc.probe_ops(new, d, ncc))
         where = f"{dc.describe(cop)} {where0}"
@@ -429,7 +465,9 @@ def run_case(chk, drv, case, global_ref, stats, corr_fail, loc_fail=None):
                 viol.append((f"C18 oracle P1: option {k} of the copy is {got.get(k)!r}, expected {exp.get(k)!r} (source "
                              f"{impl.cfgs[src].opts()}, copy(**{cop.get('kwargs', {})})) {where}", True))
         # P1: same results as the source (same strategy)
-        if ncc.tuple_strat == impl.cfgs[src].tuple_strat:
+        # (the universe probes see two options: the strategy, and the container `list` / `tuple` types are unstructured to)
+        seqs = lambda c: [dc.seq_tag(c, o, None) for o in ("list", "tuple")] if c.gen() else None  # noqa: E731
+        if ncc.tuple_strat == impl.cfgs[src].tuple_strat and seqs(ncc) == seqs(impl.cfgs[src]):
             for k in src_bat:
                 if k[0] == "ext" and cop.get("kwargs"):
                     continue  # an overridden option legitimately changes these (P1' below says how)
@@ -438,7 +476,7 @@ def run_case(chk, drv, case, global_ref, stats, corr_fail, loc_fail=None):
                                  f"{new_bat[k]!r} {where}", True))
                     break
         # P1': same results as a fresh converter with the overridden options + the registrations
-        fr_bat = battery(fr, 0)
+        fr_bat = battery(fr, 0, ext_only=ext_only)
         for k in fr_bat:
             if k in new_bat and fr_bat[k] != new_bat[k]:
                 viol.append((f"C18 oracle P1': {kname(k)}: copy gives {new_bat[k]!r}, a fresh {ncc.opts()} with the same "
@@ -447,7 +485,7 @@ def run_case(chk, drv, case, global_ref, stats, corr_fail, loc_fail=None):
         stats["copies"] += 1
     # ---- snapshot, divergent ops on `target`, re-probe everyone
     n = len(impl.convs)
-    snap = {i: battery(impl, i) for i in range(n)}
+    snap = {i: battery(impl, i, ext_only=ext_only) for i in range(n)}
     for i in range(n):
         for d in DIRS:
             full.extend(dc.probe_ops(i, d, impl.cfgs[i]))
@@ -457,7 +495,7 @@ def run_case(chk, drv, case, global_ref, stats, corr_fail, loc_fail=None):
         do(op)
         if op["op"] in REG:
             regs_of[target].append(op)
-    after = {i: battery(impl, i) for i in range(n)}
+    after = {i: battery(impl, i, ext_only=ext_only) for i in range(n)}
     probe_at = {}
     for i in range(n):
         for d in DIRS:
@@ -488,7 +526,7 @@ def run_case(chk, drv, case, global_ref, stats, corr_fail, loc_fail=None):
                              f"{{'M': 2.5, 'F': 3.5, 'G': 4.5}}); a converter constructed with the same options ({cc.opts()}) and registrations answers "
                              f"{want!r} {wherep}", True))
     fr = fresh_replay(preds, impl.cfgs[target], [o for o in regs_of[target]])
-    fr_bat = battery(fr, 0)
+    fr_bat = battery(fr, 0, ext_only=ext_only)
     for k in fr_bat:
         if muts and k[0] == "ext":
             continue  # the target's option-sensitive hooks were generated before its table was mutated
@@ -508,10 +546,11 @@ def run_case(chk, drv, case, global_ref, stats, corr_fail, loc_fail=None):
     if cc0.klass != "JsonConverter":
         for d in DIRS:
             mt, ctx0 = dc.run_model(drv, full, d, [cc0], preds)
+            ctxs = [dc.ModelCtx(c, d, preds) for c in impl.cfgs]
             for (i, dd, ty), pos in probe_at.items():
                 if dd != d:
                     continue
-                ctx = dc.ModelCtx(impl.cfgs[i], d, preds)
+                ctx = ctxs[i]
                 m = dc.expect(ctx, dc.norm_term(ctx, mt[pos]), ty, Impl.sample(impl.cfgs[i], d, U.types[ty]))
                 stats["probes"] += 1
                 if m != after[i][(d, ty)]:
@@ -696,6 +735,7 @@ def run(chk: framework.Check):
     gimpl.adopt(cattrs_global(), ConvCfg("Converter"))
     global_ref = battery(gimpl, 0, GLOBAL_BATTERY)
     cases = []
+    n_sys = 0
     # ---- systematic: every single registration kind x every way of copying x both targets
     p1 = {1: ({U.k("A"), U.k("B"), U.k("NA"), U.k("UAP"), U.k("list[A]"), U.k("int")}, set())}
     for klass in ("Converter", "BaseConverter", "JsonConverter"):
@@ -713,8 +753,11 @@ def run(chk: framework.Check):
                     {"op": "factory", "conv": 0, "dir": d, "pred": 1, "extended": False, "form": "call", "tag": 1},
                 ]
                 for reg in singles:
-                    for how in (["copy", "deepcopy"] if quick else ["copy", "deepcopy", "kw"]):
+                    for how in ["copy", "deepcopy", "kw"]:
                         for target in (0, 1):
+                            n_sys += 1
+                            if quick and (n_sys + chk.seed) % 3:   # quick: a third of the grid, another third per seed
+                                continue
                             cop = {"op": "copy", "src": 0, "how": "copy" if how == "kw" else how,
                                    "kwargs": {"detailed_validation": False} if how == "kw" else {}, "cfg": None}
                             ncc = ConvCfg.from_json(cc.to_json())
@@ -723,7 +766,7 @@ def run(chk: framework.Check):
                             cop["cfg"] = ncc.to_json()
                             post = [dict(reg, conv=target, tag=2), {"op": "func", "conv": target, "dir": d, "pred": 1, "tag": 3}]
                             cases.append({"cfg": cc.to_json(), "preds": dc.preds_to_json(p1), "pre": [reg], "copies": [cop],
-                                          "target": target, "post": post})
+                                          "target": target, "post": post, "ext": "full" if how == "kw" else "light"})
     cases += systematic_option_cases()
     cases += systematic_mutation_cases()
     n_rand = 220 if quick else 3000
